@@ -836,7 +836,7 @@ impl Runtime {
         let old_start = u16::try_from(self.stack.pop()?)?;
         let new_start = u16::try_from(self.stack.pop()?)?;
         self.listing.renum(new_start, old_start, step)?;
-
+        self.dirty = true;
         self.state = State::Stopped;
         Ok(self.r#end())
     }
